@@ -6,7 +6,7 @@
 From Coq Require Import ZArith List Bool Reals Lra.
 From Coquelicot Require Import Coquelicot.
 From GTCV Require Import Num RNum Vector VectorFacts Opres KTypes Kernel DerivTable ChainRule.
-From GTCV Require Import Cplx CplxR COpres CKernel CKernelFacts CWitness CFacts CChain.
+From GTCV Require Import Cplx CplxR COpres CKernel CKernelFacts CCaseLib CWitness CFacts CChain.
 From GTCV.gen Require Import Gen_lib_complex.
 Import ListNotations.
 Local Open Scope R_scope.
@@ -208,16 +208,28 @@ Theorem C03_dof_entry_independent :
 Proof. exact willink_hall_entry_independent. Qed.
 Print Assumptions C03_dof_entry_independent.
 
-(* (9) refuted (C01, known finding C01-intermediate-times-complex): on the faithful binary64 model,
-   x = result(ureal(2, 0.5) * 1.5);  x + 1j  and  x * 1j  end in AssertionError (the promotion code
-   reuses the intermediate operand itself as one component and UncertainComplex.__init__ asserts
-   equal is_intermediate), while  x * (2+3j)  is an uncertain complex number *)
-Theorem C01_intermediate_times_complex_refuted :
-  (match nth 2 c01_outs OutUnit with OutObj _ _ _ _ (KInterm _) => true | _ => false end) = true /\
-  is_exn (nth 3 c01_outs OutUnit) AssertionError = true /\
-  is_exn (nth 4 c01_outs OutUnit) AssertionError = true /\
-  (match nth 5 c01_outs OutUnit with OutList [OutObj _ _ _ _ _; OutObj _ _ _ _ _] => true | _ => false end) = true.
-Proof. exact c01_refuted. Qed.
+(* (9) C01-intermediate-times-complex / C06-result-real-plus-complex-literal (FIXED; was refuted by the witness
+   result(x) + 1j -> AssertionError): an uncertain real x of ANY kind (elementary, declared intermediate, constant, temporary)
+   combined with a plain complex number by + - * / yields, whenever the operation succeeds, an uncertain complex number
+   whose two components are NEW undeclared objects -- the operand object is never reused as a component, so
+   UncertainComplex.__init__ and result() never see components of different kinds.  For every number instance. *)
+Theorem C01_promotion_components_fresh :
+  forall (C : CNum) (f : binop) (rev : bool) (x : nat * KTypes.ureal (T (cN C))) (c : pyn C) v,
+    match f with B_add | B_sub | B_mul | B_div => True | _ => False end ->
+    rapply_bin_c C f rev x c = Ok v ->
+    exists re im, v = RCplx C re im /\ fresh C re /\ fresh C im.
+Proof. exact promotion_fresh. Qed.
+Print Assumptions C01_promotion_components_fresh.
+
+(* ... and on the binary64 model, a program recorded on the repaired implementation: m = result(ureal(2,.5)*1.5); m+1j,
+   m*1j, m*(2+1j); result(x+2j), result((1+2j)*x) for elementary x; result(c*(2+1j)) for a constant: the model agrees
+   with every recorded output, the promoted values are complex, result() declares both components *)
+Theorem C06_result_real_plus_complex_literal_fixed :
+  run_ccase c01_case = (-1)%Z /\
+  forallb is_cplx_new [nth 3 c01_outs OutUnit; nth 4 c01_outs OutUnit; nth 5 c01_outs OutUnit;
+                       nth 6 c01_outs OutUnit; nth 8 c01_outs OutUnit; nth 11 c01_outs OutUnit] = true /\
+  forallb is_cplx_declared [nth 7 c01_outs OutUnit; nth 9 c01_outs OutUnit; nth 12 c01_outs OutUnit] = true.
+Proof. exact c01_fixed. Qed.
 
 (* ---------- non-vacuity ---------- *)
 (* a concrete state: one elementary complex z = 1 + 2j with u = (1/2, 1/4) (independent), and
